@@ -217,8 +217,13 @@ def expected_count(kind, n):
     if kind == 'hexapolar':
         return 1 + 3 * n * (n + 1)
     if kind == 'uniform':
-        g = [-1 + 2 * i / (n - 1) for i in range(n)] if n > 1 else [-1.0]
-        return sum(1 for a in g for b in g if a * a + b * b <= 1 + 1e-12)
+        # grid points of linspace(-1, 1, n)^2 inside the unit disk; points exactly ON the rim (e.g. (0.6, 0.8) for n = 11) may fall on
+        # either side in floating point: both counts are accepted
+        from fractions import Fraction
+        g = [Fraction(-1) + Fraction(2 * i, n - 1) for i in range(n)] if n > 1 else [Fraction(-1)]
+        inside = sum(1 for a in g for b in g if a * a + b * b < 1)
+        rim = sum(1 for a in g for b in g if a * a + b * b == 1)
+        return (inside, inside + rim)
     if kind == 'gq':
         return 3 * n
     if kind == 'gq_sym':
@@ -254,7 +259,8 @@ def h4_dist(ctx, kind, n):
         d0.generate_points(n)
     d.generate_points(n, vx, vy)
     xs, ys = ctx.vals(d.x), ctx.vals(d.y)
-    ctx.oblige('count', len(xs) == expected_count(kind, n) and len(ys) == len(xs))
+    want = expected_count(kind, n)
+    ctx.oblige('count', (want[0] <= len(xs) <= want[1] if isinstance(want, tuple) else len(xs) == want) and len(ys) == len(xs))
     if xs:
         ctx.observe('x_last', xs[-1])
     for i, (x, y) in enumerate(zip(xs, ys)):
@@ -296,3 +302,56 @@ def h5_vig(ctx, nf):
         ctx.oblige(f'{nm}_linear_interpolation', ctx.eq(got, want) if want is not None else False)
         ctx.oblige(f'{nm}_in_unit_interval', ctx.And(ctx.le(0.0, got), ctx.le(got, 1.0)))
     ctx.observe('vx', vx)
+
+
+@harness('C03', 'H6_curved_object', funcs=FUNCS, cases=lambda tier: [dict(ft='object_height', tele=False), dict(ft='object_height', tele=True), dict(ft='angle', tele=False)],
+         bounds='finite object on a SPHERICAL object surface (symbolic radius R0, |y| < |R0|), one spherical lens surface (stop), EPD aperture '
+                '(object NA when telecentric); symbolic Hy, Px, Py',
+         doc='height fields: the ray starts ON the object surface at height Hy x maximum field (z = vertex + sag of the object there); angular '
+             'fields start in the vertex plane of the object; in both cases the ray aims at the pupil point')
+def h6_curved_object(ctx, ft, tele):
+    from optiland.optic import Optic
+    from checks.common import ideal
+    t0 = ctx.real('t0', lo=1.0, hi=500.0)
+    R0 = ctx.real('R0', ne=0)
+    o = Optic()
+    o.add_surface(index=0, radius=R0, thickness=t0)
+    o.add_surface(index=1, radius=ctx.real('R1', ne=0), thickness=ctx.real('t1', lo=0.1, hi=100.0), material=ideal(ctx.real('n1', lo=1.0, hi=4.0)), is_stop=True)
+    o.add_surface(index=2)
+    apv = ctx.real('apv', lo=0.05, hi=(0.5 if tele else 20.0))
+    o.set_aperture('objectNA' if tele else 'EPD', apv)
+    o.set_field_type(ft)
+    fy = ctx.real('fy', lo=0.1, hi=30.0)
+    o.add_field(y=0.0)
+    o.add_field(y=fy)
+    o.add_wavelength(0.55, is_primary=True)
+    if tele:
+        o.obj_space_telecentric = True
+    Hy = ctx.real('Hy', lo=-1.0, hi=1.0)
+    Px, Py = ctx.real('Px', lo=-1.0, hi=1.0), ctx.real('Py', lo=-1.0, hi=1.0)
+    if ft == 'object_height':
+        ctx.assume((Hy * fy) * (Hy * fy) < R0 * R0)          # the field point exists on the spherical object
+    rays = o.ray_generator.generate_rays(0.0, Hy, ctx.arr(Px), ctx.arr(Py), 0.55)
+    x0, y0, z0 = ctx.val(rays.x), ctx.val(rays.y), ctx.val(rays.z)
+    d = (ctx.val(rays.L), ctx.val(rays.M), ctx.val(rays.N))
+    if not all(ctx.finite(v) for v in (x0, y0, z0) + d):
+        return
+    ctx.oblige('origin_x', ctx.eq(x0, 0.0))
+    if ft == 'object_height':
+        yy = Hy * fy
+        ctx.oblige('origin_y', ctx.eq(y0, yy))
+        sag = yy * yy / (R0 * (1 + ctx.sqrt(1 - yy * yy / (R0 * R0))))
+        ctx.oblige('origin_on_the_object_surface', ctx.eq(z0, -t0 + sag))
+        # equivalently: the start point lies on the sphere of radius R0 through the object vertex
+        ctx.oblige('origin_on_the_object_sphere', ctx.eq(y0 * y0 + (z0 + t0 - R0) * (z0 + t0 - R0), R0 * R0))
+    else:
+        ctx.oblige('origin_z_vertex_plane', ctx.eq(z0, -t0))
+    if not tele:
+        # stop at the first surface: entrance pupil in its vertex plane, diameter = EPD
+        aim = (Px * apv / 2, Py * apv / 2, 0.0)
+        v = (aim[0] - x0, aim[1] - y0, aim[2] - z0)
+        cr = (v[1] * d[2] - v[2] * d[1], v[2] * d[0] - v[0] * d[2], v[0] * d[1] - v[1] * d[0])
+        for i, a in enumerate('xyz'):
+            ctx.oblige(f'aims_at_pupil_point_{a}', ctx.eq(cr[i], 0.0))
+    ctx.oblige('unit', ctx.eq(d[0] * d[0] + d[1] * d[1] + d[2] * d[2], 1.0))
+    ctx.observe('z0', z0)
